@@ -494,7 +494,7 @@ int main(int argc, char** argv) {
             if (!DENSEAD_HAVE_SATAN2) lacking += std::string(lacking.empty() ? "" : " ") + "M.satan2";
             sink.emit("densead.untranslatable", lacking);
         }
-        const long cases = thorough ? 60000 : 6000;
+        const long cases = thorough ? 250000 : 20000;
         for (long it = 0; it < cases; ++it) {
             Sizes sz = pickVariant(rng);
             GenOpts o; o.sdivOk = sz.v != 'D' || sdivDynOk;
@@ -528,7 +528,7 @@ int main(int argc, char** argv) {
         else log.ok();
 
         // (1) all variants agree bit for bit, and agree with the independent dual evaluator
-        const long trees = thorough ? 40000 : 4000;
+        const long trees = thorough ? 150000 : 10000;
         for (long it = 0; it < trees; ++it) {
             int n = rng.range(1, 16);
             GenOpts o; o.strict = true; o.sdivOk = sdivDynOk;
@@ -547,7 +547,7 @@ int main(int argc, char** argv) {
             else log.ok();
         }
         // (2) mixed scalar/Evaluation == lifted all-Evaluation form (single operations)
-        const long mixes = thorough ? 20000 : 3000;
+        const long mixes = thorough ? 150000 : 10000;
         static const Op mixedOps[] = { ADDS, SUBS, MULS, DIVS, SADD, SSUB, SMUL, SDIV, POWS, SPOW, ATAN2S, SATAN2, SMIN, SMAX, MINS, MAXS };
         for (long it = 0; it < mixes; ++it) {
             Sizes sz = pickVariant(rng);
@@ -583,7 +583,7 @@ int main(int argc, char** argv) {
             else log.ok();
         }
         // (3) derivatives == central finite differences of value() (real code on both sides)
-        const long fds = thorough ? 8000 : 1000;
+        const long fds = thorough ? 40000 : 3000;
         for (long it = 0; it < fds; ++it) {
             Sizes sz = pickVariant(rng);
             if (sz.n > 8) sz.n = rng.range(1, 8), sz.v = rng.coin() ? 'U' : 'D';
